@@ -43,7 +43,7 @@ type C08Sc struct {
 // C08BPEdit is a breakpoint edit made by a device callback at a tick.
 type C08BPEdit struct {
 	AtTick  uint64   `json:"at_tick"`
-	Replace bool     `json:"replace"` // clear the existing map first (true) or only add to it; always in place
+	Replace bool     `json:"replace"` // assign a fresh map (true) or add to the existing one in place (a nil set is always replaced)
 	Set     []uint16 `json:"set"`
 }
 
@@ -147,8 +147,10 @@ func (c08) Gen(r *world.Rng, tier string, n int) interface{} {
 			sc.Host = append(sc.Host, HostOp{Op: "run"})
 		case x < 70:
 			sc.Host = append(sc.Host, HostOp{Op: "step", N: r.Range(1, 5)})
-		case x < 80:
+		case x < 76:
 			sc.Host = append(sc.Host, HostOp{Op: "stale"})
+		case x < 80:
+			sc.Host = append(sc.Host, HostOp{Op: "swap", N: r.Range(1, 2)})
 		case x < 92:
 			op := HostOp{Op: "bp"}
 			switch r.Intn(5) {
@@ -303,16 +305,11 @@ func (c08) Exec(sci interface{}, env *Env) *Violation {
 			if e.AtTick != m.Bus.Tick {
 				continue
 			}
-			// in place only: whether Run must notice a *replaced* map value while it is
-			// executing is not something the statement settles (a Run that reads the
-			// field once at entry is a legitimate reading), so that is not generated
-			if m.CPU.BreakPoints == nil {
-				continue
-			}
-			if e.Replace {
-				for k := range m.CPU.BreakPoints {
-					delete(m.CPU.BreakPoints, k)
-				}
+			// "PC is a member of BreakPoints" is read literally: the public field's value at the
+			// moment of the test. So a device callback may edit the set in place, assign a fresh
+			// map, or arm a CPU that entered Run with a nil set.
+			if e.Replace || m.CPU.BreakPoints == nil {
+				m.CPU.BreakPoints = map[uint16]struct{}{}
 			}
 			for _, a := range e.Set {
 				m.CPU.BreakPoints[a] = struct{}{}
@@ -345,6 +342,12 @@ func (c08) Exec(sci interface{}, env *Env) *Violation {
 				rn.RaiseNow(sc.Events[op.N], "host")
 				parked = false
 			}
+			continue
+		case "swap":
+			// the host replaces cpu.Memory / cpu.IO by other values over the same contents (N=2: on a struct copy of the CPU)
+			tw.SwapDevices(op.N == 2)
+			rn.SwapDevices(op.N == 2)
+			env.Fire("host-swaps-devices")
 			continue
 		case "step":
 			for k := 0; k < op.N; k++ {
@@ -429,6 +432,9 @@ func (c08) Exec(sci interface{}, env *Env) *Violation {
 		}
 		if !world.SameRequest(tw.CPU.Interrupt, rn.CPU.Interrupt) {
 			return viol("twin-pending", "%s: pending request %s vs %s", what, world.FmtRequest(tw.CPU.Interrupt), world.FmtRequest(rn.CPU.Interrupt))
+		}
+		if tw.StaleCount() != 0 || rn.StaleCount() != 0 {
+			return viol("stale-device", "%s: %d/%d accesses went through Memory/IO values the host had replaced", what, tw.StaleCount(), rn.StaleCount())
 		}
 		if tw.Cnt.RETI != rn.Cnt.RETI || tw.Cnt.RETN != rn.Cnt.RETN {
 			return viol("twin-notifications", "%s: RETI/RETN notifications %d/%d vs %d/%d", what, tw.Cnt.RETI, tw.Cnt.RETN, rn.Cnt.RETI, rn.Cnt.RETN)
